@@ -23,8 +23,8 @@ _Bool  nondet_bool (void);
 /* overlap predicates as the manual states them */
 #define V_SAME_OR_SEPARATE(a,b,n)  ((a) == (b) || !__CPROVER_same_object (a, b) || (a) + (n) <= (b) || (b) + (n) <= (a))
 #define V_SEPARATE(a,an,b,bn)      (!__CPROVER_same_object (a, b) || (a) + (an) <= (b) || (b) + (bn) <= (a))
-#define V_SAME_OR_INCR(d,s,n)      ((d) <= (s) || V_SEPARATE (d, n, s, n))     /* dst at or below src */
-#define V_SAME_OR_DECR(d,s,n)      ((d) >= (s) || V_SEPARATE (d, n, s, n))
+#define V_SAME_OR_INCR(d,s,n)      (!__CPROVER_same_object (d, s) || (d) <= (s) || (s) + (n) <= (d))     /* dst at or below src */
+#define V_SAME_OR_DECR(d,s,n)      (!__CPROVER_same_object (d, s) || (d) >= (s) || (d) + (n) <= (s))
 #define V_R_OK(p,n)  __CPROVER_r_ok ((p), (n) * 8)
 #define V_W_OK(p,n)  __CPROVER_w_ok ((p), (n) * 8)
 
